@@ -30,6 +30,7 @@
 From Coq Require Import String List Bool Arith.
 Import ListNotations.
 Open Scope string_scope.
+Open Scope list_scope.
 
 Inductive kind := KGovernor | KSkyPix | KDimension | KCombination.
 
@@ -92,8 +93,8 @@ Definition sort_names (u : universe) (l : list string) : list string :=
 
 (* ---- well-formedness ---- *)
 Definition wf_elem (K : list string) (e : elem) : bool :=
-  forallb (fun d => memb d K && (index_of d K <=? index_of (ename e) K)) (ereq e)
-  && forallb (fun d => memb d K && (index_of d K <? index_of (ename e) K)) (eimp e).
+  forallb (fun d => memb d K && Nat.leb (index_of d K) (index_of (ename e) K)) (ereq e)
+  && forallb (fun d => memb d K && Nat.ltb (index_of d K) (index_of (ename e) K)) (eimp e).
 
 Definition wf_universe (u : universe) : bool :=
   nodupb (names_of u) && forallb (wf_elem (names_of u)) u.
